@@ -2,5 +2,6 @@ import MpirProofs.Lemmas.Base
 import MpirProofs.Lemmas.Kernels
 import MpirProofs.Props.C03
 import MpirProofs.Lemmas.Mpq
+import MpirProofs.Lemmas.MpqConv
 import MpirProofs.Props.C12
 import MpirProofs.Props.C11Mpq
